@@ -411,6 +411,7 @@ func (fr *Frame) loopModifies(li *loopInfo) *loopMods {
 					if n := lastCallName(cc); n != "" {
 						texts["call:"+n] = true
 						texts["callname:"+n] = true
+						texts[fmt.Sprintf("callnth:%s#%d", n, x.w.callOrdinal(fr.fn, ins.Pos(), n))] = true
 					}
 					if _, isBuiltin := cc.Value.(*ssa.Builtin); isBuiltin {
 						// no callee code runs
@@ -430,6 +431,10 @@ func (fr *Frame) loopModifies(li *loopInfo) *loopMods {
 				continue
 			}
 			hit := conservative || texts[rc.Stmt]
+			if hit && !conservative && rc.Nth > 0 && strings.HasPrefix(rc.Stmt, "call:") && !strings.Contains(rc.Stmt, ".") {
+				// N "call:Name": only the loop that contains that very call
+				hit = texts[fmt.Sprintf("callnth:%s#%d", strings.TrimPrefix(rc.Stmt, "call:"), rc.Nth)]
+			}
 			if !hit && strings.HasPrefix(rc.Stmt, "call:") {
 				// qualified form call:X.Name
 				if i := strings.LastIndex(rc.Stmt, "."); i > 0 && texts["callname:"+rc.Stmt[i+1:]] {
